@@ -19,7 +19,7 @@ ASSUMPTIONS = [
     'covers the evaluation semantics of the operator/leaf layer only: parsing (pest), cwd-relative path resolution and glob patterns (globset/regex) are outside the encodable code',
     'path components are single printable-ASCII non-"/" bytes',
 ]
-BUDGET = {'quick': 240, 'thorough': 2400}
+BUDGET = {'quick': 900, 'thorough': 3000}
 F = 'lib/src/fileset.rs'
 LEAF_KINDS = ['none', 'all', 'file', 'prefix']
 
@@ -42,6 +42,7 @@ def jobs(tier):
             for a, b, c in itertools.product([x for x in inner_leaves if x[0] in ('file', 'prefix', 'all')], repeat=3):
                 trees.append(((op1, (op2, a, b), c), 2)); trees.append(((op1, a, (op2, b, c)), 2))
     for i, (t, d) in enumerate(trees):
+        if tier == 'quick' and d > 1: continue
         out.append(dict(name=f't{i}-' + tname(t), tree=t, rung=d, weight=1 + d))
     return out
 
